@@ -44,7 +44,7 @@ pub enum Slot<'b> {
     Canary { ptr: usize, len: usize, id: u32 },
     /// a slice obtained from into_bump_slice(_mut): must stay valid and unchanged for the arena's life
     LeakedE { s: &'b [El<0>], t: &'static [El<1>] },
-    LeakedB { s: &'b [u8], t: &'static [u8] },
+    LeakedB { s: &'b [u8], t: &'static [u8], from_string: bool },
     Dead,
 }
 
@@ -199,7 +199,7 @@ impl Pair for PB {
         Slot::B(v)
     }
     fn leaked<'b>(s: &'b [u8], t: &'static [u8]) -> After<'b> {
-        After::Replace(Slot::LeakedB { s, t })
+        After::Replace(Slot::LeakedB { s, t, from_string: false })
     }
 }
 pub struct PZ;
